@@ -52,20 +52,25 @@ def gen_path(rng):
     nloops = rng.choice([0, 0, 1, 2, 3, 4])
     loops = [rng.choice(LOOPS) for _ in range(nloops)]
     seg = qual = ele = comp = None
-    shape = rng.choice(['loops', 'seg', 'seg', 'segq', 'sege', 'segqe', 'segec', 'segqec', 'bare', 'barec', 'bad_q', 'bad_e'])
+    shape = rng.choice(['loops', 'seg', 'seg', 'segq', 'sege', 'segqe', 'segec', 'segqec', 'bare', 'barec', 'bad_q', 'bad_e', 'bad_q_only',
+                        'bad_ec'])
     if shape != 'loops':
         seg = rng.choice(SEGIDS)
     if shape in ('segq', 'segqe', 'segqec'):
         qual = rng.choice(QUALS)
-    if shape in ('sege', 'segqe', 'segec', 'segqec', 'bare', 'barec', 'bad_e', 'bad_q'):
+    if shape in ('sege', 'segqe', 'segec', 'segqec', 'bare', 'barec', 'bad_e', 'bad_q', 'bad_ec'):
         ele = rng.randint(1, 99) if rng.random() < 0.3 else rng.randint(1, 20)
-    if shape in ('segec', 'segqec', 'barec'):
+    if shape in ('segec', 'segqec', 'barec', 'bad_ec'):
         comp = rng.randint(1, 99) if rng.random() < 0.2 else rng.randint(1, 9)
     if shape in ('bare', 'barec'):
         seg = None
         loops = []
         absolute = False
-    if shape == 'bad_e':
+    if shape == 'bad_q_only':
+        # a bare qualifier after loop ids (or alone), no segment id, no element index
+        seg = None
+        qual = rng.choice(QUALS)
+    if shape in ('bad_e', 'bad_ec'):
         seg = None
         if not loops:
             loops = [rng.choice(LOOPS)]
@@ -85,7 +90,7 @@ def gen_path(rng):
         last += '-%d' % comp
     parts = list(loops) + ([last] if last else [])
     text = ('/' if absolute else '') + '/'.join(parts)
-    if shape in ('bad_e', 'bad_q'):
+    if shape in ('bad_e', 'bad_q', 'bad_q_only', 'bad_ec'):
         return text, 'error', shape
     return text, {'relative': not absolute, 'loops': loops, 'seg': seg, 'qual': qual, 'ele': ele, 'comp': comp}, shape
 
